@@ -26,10 +26,17 @@ def verify(src, mid):
     try:
         place = meta["demo"].get("place_at", "pkg/cdi/")
         race = " -race" if "-race" in run else ""
-        if place.strip().startswith("schema/"):
-            demo, tcwd, tpkg = os.path.join(wt, "schema/zz_seeded_demo_test.go"), os.path.join(wt, "schema"), "."
-        else:
-            demo, tcwd, tpkg = os.path.join(wt, "pkg/cdi/zz_seeded_demo_test.go"), wt, "./pkg/cdi/"
+        pl = place.strip().split()[0]
+        ddir = os.path.dirname(pl) if pl.endswith(".go") else pl.rstrip("/")
+        if not os.path.isdir(os.path.join(wt, ddir)):
+            ddir = "pkg/cdi"
+        # the module the demo belongs to: nearest go.mod above it
+        mod = ddir
+        while mod and not os.path.exists(os.path.join(wt, mod, "go.mod")):
+            mod = os.path.dirname(mod)
+        demo = os.path.join(wt, ddir, "zz_seeded_demo_test.go")
+        tcwd = os.path.join(wt, mod)
+        tpkg = "./" + os.path.relpath(os.path.join(wt, ddir), tcwd) + "/"
         shutil.copy(os.path.join(src, "demo_test.go"), demo)
         rc, out = sh("go test%s -vet=off -count=1 -run '%s' %s" % (race, test, tpkg), cwd=tcwd)
         rec["demo_passes_without_change"] = rc == 0
@@ -67,31 +74,31 @@ def verify(src, mid):
 
 
 def run(mid, tier="quick", props=None):
+    """Apply the seeded change in a scratch worktree of /repo HEAD and run the checks against that
+    checkout (VERIF_REPO); /repo itself is not touched.  `--in-repo` applies it to /repo instead."""
     d = os.path.join(SEEDED, mid)
     meta = json.load(open(os.path.join(d, "meta.json")))
     props = props or [meta["property"]]
-    rc, out = sh(["git", "-C", "/repo", "status", "--porcelain", "--untracked-files=no"])
-    if out.strip():
-        print("refusing: /repo has local modifications")
-        return 2
-    rc, out = sh(["git", "-C", "/repo", "apply", os.path.join(d, "patch.diff")])
-    if rc != 0:
-        # the tree has moved on (hooks, fixes): re-base the change with a 3-way merge and keep the re-based patch
-        rc, out = sh(["git", "-C", "/repo", "apply", "--3way", os.path.join(d, "patch.diff")])
-        if rc != 0:
-            sh(["git", "-C", "/repo", "reset", "-q"]); sh(["git", "-C", "/repo", "checkout", "--", "."])
-            print("patch does not apply to /repo HEAD:", out[-400:])
-            return 2
-        sh(["git", "-C", "/repo", "reset", "-q"])
-        rc, diff = sh(["git", "-C", "/repo", "diff"])
-        shutil.copy(os.path.join(d, "patch.diff"), os.path.join(d, "patch.orig.diff"))
-        open(os.path.join(d, "patch.diff"), "w").write(diff)
-        meta["rebased_onto"] = sh(["git", "-C", "/repo", "rev-parse", "HEAD"])[1].strip()
+    wt = "/tmp/wt-seed-%s-%d" % (mid, os.getpid())
+    sh(["git", "-C", "/repo", "worktree", "add", "--detach", wt, "HEAD"])
     res = {}
     try:
+        rc, out = sh(["git", "-C", wt, "apply", os.path.join(d, "patch.diff")])
+        if rc != 0:
+            rc, out = sh(["git", "-C", wt, "apply", "--3way", os.path.join(d, "patch.diff")])
+            if rc != 0:
+                print("patch does not apply to /repo HEAD:", out[-400:])
+                return 2
+            sh(["git", "-C", wt, "reset", "-q"])
+            rc, diff = sh(["git", "-C", wt, "diff"])
+            shutil.copy(os.path.join(d, "patch.diff"), os.path.join(d, "patch.orig.diff"))
+            open(os.path.join(d, "patch.diff"), "w").write(diff)
+            meta["rebased_onto"] = sh(["git", "-C", "/repo", "rev-parse", "HEAD"])[1].strip()
+        env = dict(ENV, VERIF_REPO=wt)
         for p in props:
             t = time.time()
-            rc, out = sh([os.path.join(V, "check"), p, tier], cwd=V, timeout=7200)
+            pr = subprocess.run([os.path.join(V, "check"), p, tier], cwd=V, env=env, stdout=subprocess.PIPE, stderr=subprocess.STDOUT, text=True, timeout=7200)
+            rc, out = pr.returncode, pr.stdout
             viol = [l for l in out.splitlines() if l.startswith("VIOLATION")]
             res[p] = {"tier": tier, "exit": rc, "violations": len(viol), "wall_s": round(time.time() - t, 1)}
             first = next((l for l in out.splitlines() if l.strip().startswith("what=")), "")
@@ -99,10 +106,16 @@ def run(mid, tier="quick", props=None):
             if rc == 2:
                 print(out[-1500:])
     finally:
-        sh(["git", "-C", "/repo", "checkout", "--", "."])
+        sh(["git", "-C", "/repo", "worktree", "remove", "--force", wt])
+        shutil.rmtree(wt, ignore_errors=True)
+        import hashlib
+        tag = hashlib.sha1(os.path.abspath(wt).encode()).hexdigest()[:10]
+        shutil.rmtree(os.path.join(V, "bin", tag), ignore_errors=True)
+        shutil.rmtree(os.path.join(V, "out", tag), ignore_errors=True)
     meta.setdefault("detected_by", {})
     for p, r in res.items():
         meta["detected_by"]["%s/%s" % (p, tier)] = r
+    meta["how_run"] = "tools/seed.py run: scratch worktree of /repo HEAD + git apply patch.diff, ./check <id> <tier> with VERIF_REPO=<worktree> (same effect as applying it to /repo and undoing it), worktree removed"
     json.dump(meta, open(os.path.join(d, "meta.json"), "w"), indent=1)
     return 0
 
@@ -116,7 +129,10 @@ if __name__ == "__main__":
         props = [x for x in a[2:] if re.match(r"C\d+$", x)]
         sys.exit(run(a[1], tier, props or None))
     if a[0] == "runall":
-        tier = a[1] if len(a) > 1 else "quick"
-        for mid in sorted(os.listdir(SEEDED)):
-            if os.path.exists(os.path.join(SEEDED, mid, "patch.diff")):
-                run(mid, tier)
+        # every seeded change against the check of its property, several at a time (each in its own worktree)
+        import concurrent.futures
+        tier = a[1] if len(a) > 1 and a[1] in ("quick", "thorough") else "quick"
+        par = int(a[2]) if len(a) > 2 else 3
+        mids = [m for m in sorted(os.listdir(SEEDED)) if os.path.exists(os.path.join(SEEDED, m, "patch.diff"))]
+        with concurrent.futures.ThreadPoolExecutor(max_workers=par) as ex:
+            list(ex.map(lambda m: run(m, tier), mids))
